@@ -206,7 +206,7 @@ def emit_runner(t):
     for kind in containers_for(t):
         out.append("    for h in 0..nhist {")
         out.append("        let mark = tracked::mark();")
-        out.append("        let (so, sr) = (Sink::new(), Sink::new());")
+        out.append("        let (so, sr) = (Sink::new(), Sink::new()); so.opaque.store(true, ::std::sync::atomic::Ordering::SeqCst);")
         out.append("        let rid = rng.next() | 1;")
         out.append("        let mut reference = RecB::root(rid, &sr);")
         out.append("        let ctx_arc = std::sync::Arc::new(CtxPayload::new());")
@@ -386,6 +386,21 @@ def int_result_traits(rng, tier):
         Method("ia_yes", "ref", ["u32"], None, int_ret="ir_u64_io_alias"),
         Method("ia_no", "ref", ["u32"], "res", attrs=["no_int_result"]),
     ], int_result="AliasRes"))
+    # a one-parameter alias (the form the crate documentation shows), and errors that cannot survive the integer convention
+    ts.append(Trait("IrOneParam", [
+        Method("i1_val", "ref", ["u64"], None, int_ret="ir_u64_one"),
+        Method("i1_unit", "mut", ["u64"], None, int_ret="ir_unit_one"),
+        Method("i1_lossy", "ref", ["u64"], None, int_ret="ir_u64_one_lossy"),
+    ], int_result="IoRes"))
+    ts.append(Trait("IrLossy", [
+        Method("il_trait_level", "ref", ["u64"], None, int_ret="ir_u64_io_lossy"),
+        Method("il_plain", "ref", ["u64"], "res", attrs=["no_int_result"]),
+    ], int_result=""))
+    ts.append(Trait("IrLossyMethod", [
+        Method("ilm_before", "ref", ["u64"], "u64"),
+        Method("ilm_marked", "mut", ["u64"], None, int_ret="ir_u64_io_lossy", attrs=["int_result"]),
+        Method("ilm_alias", "ref", ["u64"], None, int_ret="ir_u64_alias_lossy", attrs=["int_result(AliasRes)"]),
+    ]))
     ts.append(Trait("IrConsume", [
         Method("ic_peek", "ref", [], "u64"),
         Method("ic_fin", "own", ["u64"], None, int_ret="ir_u64_io"),
@@ -406,6 +421,7 @@ use gluert::*;
 use std::sync::Arc;
 
 pub type AliasRes<T, E> = Result<T, E>;
+pub type IoRes<T> = Result<T, std::io::Error>;
 """
 
 
